@@ -87,6 +87,24 @@ pub fn event_to_json(e: &verif::CacheEvent) -> Value {
     }
 }
 
+/// A call that returned something other than what its linearisation point recorded
+/// (or that had no linearisation point at all) cannot be explained by the specification.
+fn call_mismatch(op: &Value, ret: &Value, ev: Option<&verif::CacheEvent>) -> Option<Value> {
+    let kind = op["op"].as_str().unwrap_or("");
+    let same = match (kind, ev.map(event_to_json)) {
+        ("get", Some(e)) => e["ev"] == "get" && &e["ret"] == ret,
+        ("prune", Some(e)) => e["ev"] == "prune" && &e["ret"] == ret,
+        ("insert", Some(e)) => e["ev"] == "insert",
+        ("get" | "prune" | "insert", None) => false,
+        _ => true,
+    };
+    if same {
+        None
+    } else {
+        Some(json!({"ev": "call_mismatch", "op": op, "returned": ret}))
+    }
+}
+
 enum Backend {
     Shared(SharedCache),
     Direct(Cache),
@@ -103,10 +121,15 @@ fn op_rr(v: &Value) -> ResourceRecord {
 }
 
 fn apply(b: &mut Backend, v: &Value) -> Option<Value> {
+    apply2(b, v).0
+}
+
+/// (harness-side extra event, what the call returned to its caller)
+fn apply2(b: &mut Backend, v: &Value) -> (Option<Value>, Option<Value>) {
     match v["op"].as_str().unwrap() {
         "tick" => {
             verif::set_clock_ms(verif::clock_ms() + v["ms"].as_u64().unwrap());
-            None
+            (None, None)
         }
         "insert" => {
             let rr = op_rr(v);
@@ -115,13 +138,13 @@ fn apply(b: &mut Backend, v: &Value) -> Option<Value> {
                     c.insert(&rr);
                     if rr.ttl == 0 {
                         // the call returns without touching the cache: harness-side record
-                        return Some(json!({"ev": "insert_skipped", "now": verif::clock_ms(),
-                            "name": v["name"], "type": v["type"], "data": v["data"], "ttl": 0}));
+                        return (Some(json!({"ev": "insert_skipped", "now": verif::clock_ms(),
+                            "name": v["name"], "type": v["type"], "data": v["data"], "ttl": 0})), None);
                     }
                 }
                 Backend::Direct(c) => c.insert(&rr),
             }
-            None
+            (None, Some(json!("inserted")))
         }
         "insert_all" => {
             let rrs: Vec<ResourceRecord> = v["rrs"].as_array().unwrap().iter().map(op_rr).collect();
@@ -133,31 +156,23 @@ fn apply(b: &mut Backend, v: &Value) -> Option<Value> {
                     }
                 }
             }
-            None
+            (None, None)
         }
         "get" => {
             let name = json_to_name(&v["name"]).expect("name");
             let qtype = string_to_qtype(v["qtype"].as_str().unwrap()).expect("qtype");
-            match b {
-                Backend::Shared(c) => {
-                    c.get(&name, qtype);
-                }
-                Backend::Direct(c) => {
-                    c.get(&name, qtype);
-                }
-            }
-            None
+            let rrs = match b {
+                Backend::Shared(c) => c.get(&name, qtype),
+                Backend::Direct(c) => c.get(&name, qtype),
+            };
+            (None, Some(cached_rrs_to_json(&rrs)))
         }
         "prune" => {
-            match b {
-                Backend::Shared(c) => {
-                    c.prune();
-                }
-                Backend::Direct(c) => {
-                    c.prune();
-                }
-            }
-            None
+            let r = match b {
+                Backend::Shared(c) => c.prune(),
+                Backend::Direct(c) => c.prune(),
+            };
+            (None, Some(json!({"overflow": r.0, "size": r.1, "expired": r.2, "evicted": r.3})))
         }
         other => panic!("unknown op {other}"),
     }
@@ -188,14 +203,23 @@ pub fn cache_run(inp: &str, out: &str) {
         }
         verif::start_recording();
         let b = backend.as_mut().expect("reset first");
-        let r = std::panic::catch_unwind(std::panic::AssertUnwindSafe(|| apply(b, &v)));
+        let r = std::panic::catch_unwind(std::panic::AssertUnwindSafe(|| apply2(b, &v)));
         let events = verif::take_events();
         for e in &events {
             writeln!(wr, "{}", event_to_json(e)).unwrap();
         }
         match r {
-            Ok(Some(extra)) => writeln!(wr, "{extra}").unwrap(),
-            Ok(None) => (),
+            Ok((extra, ret)) => {
+                if let Some(extra) = extra {
+                    writeln!(wr, "{extra}").unwrap();
+                }
+                // what the caller got must be what happened under the lock
+                if let Some(ret) = ret {
+                    if let Some(bad) = call_mismatch(&v, &ret, events.last()) {
+                        writeln!(wr, "{bad}").unwrap();
+                    }
+                }
+            }
             Err(_) => writeln!(wr, "{}", json!({"ev": "panic", "op": v})).unwrap(),
         }
     }
@@ -233,23 +257,38 @@ pub fn cache_threads(inp: &str, out: &str) {
                 handles.push(std::thread::spawn(move || {
                     let mut b = Backend::Shared(cache);
                     barrier.wait();
-                    let mut skipped = Vec::new();
+                    let mut calls = Vec::new();
                     for op in ops.as_array().unwrap() {
-                        if let Some(x) = apply(&mut b, op) {
-                            skipped.push(x);
+                        let (_, ret) = apply2(&mut b, op);
+                        if let Some(ret) = ret {
+                            calls.push((op.clone(), ret));
                         }
                     }
-                    skipped
+                    (format!("{:?}", std::thread::current().id()), calls)
                 }));
             }
             let mut panicked = false;
+            let mut per_thread = Vec::new();
             for h in handles {
-                if h.join().is_err() {
-                    panicked = true;
+                match h.join() {
+                    Ok(x) => per_thread.push(x),
+                    Err(_) => panicked = true,
                 }
             }
-            for e in &verif::take_events() {
+            let events = verif::take_events();
+            for e in &events {
                 writeln!(wr, "{}", event_to_json(e)).unwrap();
+            }
+            for (tid, calls) in &per_thread {
+                let mine: Vec<&verif::CacheEvent> = events.iter().filter(|e| &e.thread == tid).collect();
+                for (k, (op, ret)) in calls.iter().enumerate() {
+                    if let Some(bad) = call_mismatch(op, ret, mine.get(k).copied()) {
+                        writeln!(wr, "{bad}").unwrap();
+                    }
+                }
+                if mine.len() != calls.len() {
+                    writeln!(wr, "{}", json!({"ev": "call_mismatch", "op": {"op": "count"}, "returned": calls.len()})).unwrap();
+                }
             }
             if panicked {
                 writeln!(wr, "{}", json!({"ev": "panic", "op": "thread"})).unwrap();
